@@ -55,6 +55,7 @@ type T struct {
 	st      *Stats
 	exhausted bool
 	quiet   bool // shrinking run: do not write the failure file
+	stale   bool // replay: a recorded label did not match the draw asked for
 }
 
 func (t *T) record(d Draw) { t.draws = append(t.draws, d) }
@@ -66,6 +67,9 @@ func (t *T) next(label, kind string) (string, bool) {
 	}
 	d := t.replay[t.pos]
 	t.pos++
+	if d.L != label {
+		t.stale = true
+	}
 	if d.K != kind {
 		t.exhausted = true
 		return "", false
@@ -445,6 +449,12 @@ func ReplayFile(st *Stats, path string, prop func(*T)) (ok bool, msg string) {
 	st.absorb(t)
 	if t.failed {
 		return false, fmt.Sprintf("[%s] %s", t.failKey, t.failMsg)
+	}
+	if t.stale || t.pos < len(t.replay) {
+		// the generator changed since the case was saved: the replay did not
+		// execute the recorded case
+		st.Extra["stale_replay"] = 1
+		fmt.Fprintln(os.Stderr, "STALE-REPLAY: recorded draws do not match the current generator:", path)
 	}
 	return true, ""
 }
